@@ -294,6 +294,14 @@ def primal_check(rec, ret_value, mode, held_objects=(), posthoc=None):
 
     def check_obj(o, tag):
         info["n_objects"] += 1
+        if isinstance(o, (Point, Expression)):
+            try:
+                o.eval()
+            except Exception as ex:
+                findings.append({"key": "held_object_eval_raises:" + type(ex).__name__,
+                                 "what": "%s %s .eval() raised %s after a finite solve: %s" % (tag, type(o).__name__, type(ex).__name__, str(ex)[:120]),
+                                 "defect": 1.0, "scale": 1.0, "grade": "violated"})
+                return
         if isinstance(o, Point):
             want = P @ canon.point_num(o, idx) if n else np.zeros(0)
             got = np.asarray(o.eval(), dtype=float)
